@@ -117,7 +117,7 @@ def gen_c08(rnd, n, thorough=False):
         k = len(layout)
         m, xff = rnd.pick(METHODS), rnd.pick([0x00000000, 0x3f000000, 0x3f800000, 0x3e800000])
         lines = fill_ops(rnd, 's/a.wsp', layout, m, xff, density=rnd.pick([0.2, 0.6, 1.0]), inconsistent=rnd.chance(0.7))
-        destkind = rnd.pick(['missing', 'fresh', 'filled', 'partly_equal', 'equal', 'mismatch', 'coarse_equal', 'cascade'])
+        destkind = rnd.pick(['missing', 'fresh', 'filled', 'partly_equal', 'equal', 'mismatch', 'coarse_equal', 'cascade', 'superset'])
         if destkind == 'cascade':
             lname = rnd.pick(['three_1s', 'three_2s', 'four'])
             layout = CLI_LAYOUTS[lname]
@@ -129,6 +129,17 @@ def gen_c08(rnd, n, thorough=False):
             lines += ["create d/a.wsp %s m %d x %08x" % (fmt_layout(layout), m, xff), "sync d/a.wsp", "drop d/a.wsp"]
         elif destkind == 'filled':
             lines += fill_ops(rnd, 'd/a.wsp', layout, m, xff, density=rnd.pick([0.3, 0.8]), inconsistent=True)
+        elif destkind == 'superset':
+            # the destination holds everything the source holds and values where the source has none:
+            # nothing of the source is new, yet with NaN copying the surplus has to go
+            cp = copy_of(src_fill, 's/a.wsp', 'd/a.wsp')
+            extra_lines = []
+            for a_, (S_, N_) in enumerate(layout):
+                ex = [("@-%d" % (j_ * S_), fbits(float(rnd.randint(60, 99)))) for j_ in range(N_) if rnd.chance(0.15)]
+                if ex:
+                    extra_lines.append("many d/a.wsp %d @ %d %s" % (a_, len(ex), " ".join("%s %016x" % tv for tv in ex)))
+            # surplus first, then the source's own batches on top (so that every source value is there)
+            lines += [cp[0]] + extra_lines + cp[1:]
         elif destkind in ('partly_equal', 'equal', 'coarse_equal'):
             cp = copy_of(src_fill, 's/a.wsp', 'd/a.wsp')
             if destkind == 'partly_equal':
@@ -151,6 +162,8 @@ def gen_c08(rnd, n, thorough=False):
         if destkind == 'cascade':
             wk, frm, until, arch = 'default', '0', '0', -1
         copynan = rnd.pick([0, 1])
+        if destkind == 'superset':
+            copynan = 1 if rnd.chance(0.8) else 0
         opt = "src=s:a.wsp dest=d:a.wsp from=%s until=%s archive=%d copynan=%d m=%d x=%08x layout=%s" % (frm, until, arch, copynan, m, xff, lay_csv(layout))
         lines += ["snap s/a.wsp", "snap d/a.wsp", "clicopy " + opt, "disk s/a.wsp", "disk d/a.wsp"]
         observe_all(lines, 'd/a.wsp', layout)
@@ -370,6 +383,8 @@ def gen_c10(rnd, n, thorough=False):
         cases.append({'id': 'c10-%d' % c, 'lines': lines, 'tags': {'layout': lname, 'kind': kind, 'files': nfiles, 'window': wk, 'remote': int('remote' in hold)}})
         if c == 1:
             cases.append(many_files_case(rnd, 'c10-%d-many' % c, ['sum']))
+        if c == 4:
+            cases.append({'id': 'c10-wsitem', 'lines': ['cliwsitem'], 'tags': {'layout': 'blank_in_item_name', 'kind': 'wsitem', 'files': 2, 'window': 'default'}})
         if c == 2:
             cases.append(many_files_case(rnd, 'c10-%d-hundreds' % c, ['sum'], nfiles=rnd.pick([257, 260, 300, 515] if thorough else [257, 260, 300])))
     return cases
@@ -417,7 +432,7 @@ def gen_c11(rnd, n, thorough=False):
         items = rnd.pick([['i1'], ['i1', 'i2'], ['a.b'], ['a.b', 'a.c']])      # dotted item = nested directory a/b
         itempat = 'a/*' if items[0].startswith('a.') else '*'
         lines = item_tree(rnd, layout, m, xff, items, nfiles, rnd.pick([0.4, 0.9]))
-        destkind = rnd.pick(['absent', 'empty', 'partial', 'stale', 'mismatch', 'missing_src', 'cascade'])
+        destkind = rnd.pick(['absent', 'empty', 'partial', 'stale', 'mismatch', 'missing_src', 'cascade', 'value_equal'])
         if destkind == 'cascade':
             lname = rnd.pick(['three_1s', 'three_2s', 'four'])
             layout = CLI_LAYOUTS[lname]
@@ -425,6 +440,18 @@ def gen_c11(rnd, n, thorough=False):
             items, nfiles, itempat = ['i1'], 1, '*'
             lines, cdst = cascade_pair(rnd, 's/i1/f0.wsp', 'd/i1/sum.wsp', layout, m, xff)
             lines += cdst
+        if destkind == 'value_equal':
+            # the sum and the destination are equal as VALUES and differ as bit patterns: opposite infinities
+            # sum to a NaN the hardware makes up (the destination slot was never written), and -0 = +0
+            items, nfiles, itempat = ['i1'], 2, '*'
+            S0, N0 = layout[0]
+            j1, j2 = rnd.sample(range(1, N0), 2)
+            lines = ["create s/i1/f0.wsp %s m %d x %08x" % (fmt_layout(layout), m, xff), "create s/i1/f1.wsp %s m %d x %08x" % (fmt_layout(layout), m, xff),
+                     "many s/i1/f0.wsp 0 @ 2 @-%d 7ff0000000000000 @-%d 8000000000000000" % (j1 * S0, j2 * S0),
+                     "many s/i1/f1.wsp 0 @ 1 @-%d fff0000000000000" % (j1 * S0),
+                     "sync s/i1/f0.wsp", "drop s/i1/f0.wsp", "sync s/i1/f1.wsp", "drop s/i1/f1.wsp",
+                     "create d/i1/sum.wsp %s m %d x %08x" % (fmt_layout(layout), m, xff), "many d/i1/sum.wsp 0 @ 1 @-%d 0000000000000000" % (j2 * S0),
+                     "sync d/i1/sum.wsp", "drop d/i1/sum.wsp"]
         for it in items:
             dn = 'd/%s/sum.wsp' % it.replace('.', '/')
             if destkind == 'empty':
@@ -507,6 +534,8 @@ def gen_c18(rnd, n, thorough=False):
                 lines.append("cliview src=s:%s from=%s until=%s archive=%d header=%d remote=%d" % (vname, frm, until, arch, rnd.pick([0, 1]), rnd.pick([0, 0, 1])))
             else:
                 lines.append("cliviewraw src=s:%s from=%s until=%s archive=%d header=%d sort=%d remote=%d" % (vname, frm, until, arch, rnd.pick([0, 1]), rnd.pick([0, 1]), rnd.pick([0, 0, 1])))
+        if rnd.chance(0.25):
+            lines.append("setmaxret s/%s %d" % (vname, rnd.pick([layout[-1][0] * layout[-1][1] * 2, 1, 7200, 2 ** 31 - 1])))
         a = rnd.randrange(k)
         lines.append("cliview src=s:%s from=0 until=0 archive=%d header=1 remote=%d" % (vname, a, rnd.pick([0, 1])))
         lines.append("cliviewraw src=s:%s from=0 until=0 archive=%d header=0 sort=1 remote=%d" % (vname, a, rnd.pick([0, 1])))
@@ -547,6 +576,11 @@ def gen_c20(rnd, n, thorough=False):
         if len(lines) == 2 and lines[-1].startswith('hdrof'):
             observe_all(lines, 'g/x.wsp', layout, until='@+3', now='@+3')
         cases.append({'id': 'c20-%d' % c, 'lines': lines, 'tags': {'levels': len(layout), 'fill': fill, 'max': mx}})
+    # the layout arrives as text: a retention whose seconds do not fit 32 bits is refused, whatever its wrapped value
+    ll = []
+    for rt in ['1s:49711d', '1s:137y', '2s:7102w', '1s:1m,2s:49711d', '1s:1193047h', '1s:71582789m', '1s:24855d', '1s:68y', '1s:69y', '1s:3550w']:
+        ll.append('cliargs generate %s' % ' '.join(a.encode().hex() for a in ['-dest', 'g.wsp', '-agg-method', 'sum', '-retentions', rt]))
+    cases.append({'id': 'c20-retentions', 'lines': ll, 'tags': {'levels': 0, 'fill': 0, 'max': 0, 'args': 1}})
     # layouts whose file is an exact number of mebibytes (and one slot more / less), created without fill:
     # the file has the length its header describes and can be opened
     for j, lay in enumerate([[(1, 87379)], [(1, 43200), (60, 44178)], [(1, 87380)]] if not thorough else [[(1, 87379)], [(1, 43200), (60, 44178)], [(1, 87380)], [(1, 87378)], [(1, 174759)]]):
@@ -586,6 +620,13 @@ def gen_c12(rnd, n, thorough=False):
                 lines.append("clisum base=s item=*/cpu src=*.wsp from=%s until=%s archive=-1 header=1 remote=%d" % (frm, until, remote))
             lines.append("clidiff src=s:*/cpu/*.wsp dest=s: from=%s until=%s archive=-1 remote=0" % (frm, until))
             lines.append("clidiff src=s:*/cpu/*.wsp dest=ROOT: from=%s until=%s archive=-1 remote=1" % (frm, until))
+        if rnd.chance(0.3):
+            # a file whose max-retention word is stale (another tool resized it): the header shows the stored word both ways
+            lines += ["setmaxret s/i1/%s %d" % (names[0], rnd.pick([layout[-1][0] * layout[-1][1] * 2, 1, 0, 7200, 2 ** 31 - 1]))]
+            for remote in (0, 1):
+                lines.append("cliview src=s:i1/%s from=0 until=0 archive=-1 header=1 remote=%d" % (names[0], remote))
+                lines.append("cliviewraw src=s:i1/%s from=0 until=0 archive=-1 header=1 sort=1 remote=%d" % (names[0], remote))
+            lines.append("clisum base=s item=i2 src=a.wsp from=0 until=0 archive=-1 header=1 remote=1")
         for _ in range(rnd.randint(3, 6)):
             # besides files and missing files: a directory and a path through a regular file (they
             # exist but cannot be opened: an error, not "does not exist", on both access paths)
@@ -671,6 +712,7 @@ def gen_c12(rnd, n, thorough=False):
                                                                             rnd.pick(['0', '@-30', '1']), rnd.pick(['0', '@-3', '@+5'])))
         cases.append({'id': 'c12-%d' % c, 'lines': lines, 'tags': {'layout': lname}})
     cases.append({'id': 'c12-newline', 'lines': ['clinewline'], 'tags': {'layout': 'newline_in_name'}})
+    cases.append({'id': 'c12-wsitem', 'lines': ['cliwsitem'], 'tags': {'layout': 'blank_in_item_name'}})
     # the same requests in flight at once (the served file is kept locked while they arrive), among
     # them the same sum and view asked with different clocks: each is answered as it is alone
     for j in range(2):
@@ -752,6 +794,10 @@ def gen_c16(rnd, n, thorough=False):
         elif destkind == 'mismatch':
             lines += fill_ops(rnd, 'd/a.wsp', [(s, nn + 2) for s, nn in layout], m, xff, density=0.4, inconsistent=False)
         sum_dest_exists = rnd.chance(0.5)
+        sum_dest_corrupt = not sum_dest_exists and rnd.chance(0.3)
+        if sum_dest_corrupt:
+            # it exists but its header never reached the disk: it cannot be opened (an error, no panic)
+            lines += ["create e/i1/sum.wsp %s m %d x %08x" % (fmt_layout(layout), m, xff), "drop e/i1/sum.wsp"]
         if sum_dest_exists:
             lines += ["create e/i1/sum.wsp %s m %d x %08x" % (fmt_layout(layout), m, xff), "sync e/i1/sum.wsp", "drop e/i1/sum.wsp"]
         hist = {}
@@ -895,7 +941,7 @@ ARG_VALUES = {
     'item': ['i*', 'a.b', '*', ''],
     'agg-method': ['sum', 'average', 'last', 'max', 'min', 'first', 'mix', 'percentile', 'bogus', 'Sum', '', 'avg'],
     'x-files-factor': ['0.5', '0', '1', '1.5', '-0.1', 'NaN', 'abc', '1e-3', '0x1p-1', '+0.25', '.5', '1_0', '', '-0', '1.0000001', '1.00000001', 'Inf', '1e-50'],
-    'retentions': ['1s:1m', '1m:1h,1h:1d', '1s:5s,5s:1m,1m:1h', '1s:1m,1m:30s', '', '1s', '60:1440', '1s:1m,', '2s:1m,3s:2m', '1m:1y'],
+    'retentions': ['1s:1m', '1m:1h,1h:1d', '1s:5s,5s:1m,1m:1h', '1s:1m,1m:30s', '', '1s:49711d', '1s:137y', '2s:7102w', '1s:1m,2s:49711d', '1s:1193047h', '1s:71582789m', '1s:24856d', '1s', '60:1440', '1s:1m,', '2s:1m,3s:2m', '1m:1y'],
     'from': ['2020-01-01T00:00:00Z', '1970-01-01T00:00:00Z', '2106-02-07T06:28:15Z', '2106-02-07T06:28:16Z', '2020-13-01T00:00:00Z', '2020-01-01', '',
              '2020-01-01T0:00:00Z', '2020-01-01T00:00:00.000Z', '2020-01-01T00:00:00.5Z', '2021-06-30T12:00:00Z', '1969-12-31T23:59:59Z', '2020-02-30T00:00:00Z', '0'],
     'archive': ['0', '1', '-1', '+2', '007', '08', '0x10', '0b11', '0o17', 'abc', '', '9223372036854775807', '9223372036854775808', '-9223372036854775808',
